@@ -6,8 +6,9 @@
    constants; the path side (which file a NAME denotes) is the C12 model.  Reference:
    Spec/SpliceSpec.v (text lines, the directive, code tabs, the reference splice), written from
    the description of the feature.  The model follows the code after the `fix:` commit recorded in
-   findings/known_C20.json (an included line without final newline now gets one); the shape of the
-   two yield sites is regenerated (include_newline_kind) and pinned. *)
+   findings/known_C20.json (an included line without final newline now gets one; tabs are selected on text
+   lines; the captured name is decoded as P8SCII); the three shapes are regenerated (include_newline_kind,
+   include_cart_lines_kind, include_name_decode_kind) and pinned. *)
 From PV Require Import Base.Prelude Model.Paths Model.Include Model.FilesInst Spec.SpliceSpec
   Instances.HoldsC20 Proofs.SpliceProofs Proofs.SpliceRefine.
 
@@ -31,13 +32,21 @@ Theorem C20_expand : forall cwd home fs filename l,
   match match_include_line l with
   | None => expand_now cwd home fs filename l = Ok [l]
   | Some (path, ext, tab) =>
-    match resolve_now cwd home fs filename (path ++ ext) with
-    | Err e => expand_now cwd home fs filename l = Err e
-    | Ok p =>
-      match fs_target T_files_p8.include_cart_lines_kind fs p ext with
-      | None => expand_now cwd home fs filename l = Err OtherError
-      | Some ls => expand_now cwd home fs filename l =
-                   Ok (map (yielded 1) (if is_cart_ext ext then lines_for_tab ls tab else ls))
+    match filename with
+    | None => expand_now cwd home fs filename l = Err AssertionError
+    | Some f =>
+      match decode_name_now path with
+      | Err e => expand_now cwd home fs filename l = Err e
+      | Ok nm =>
+        match resolve_include_now cwd home (fs_isfile fs) f (nm ++ ext) with
+        | Err e => expand_now cwd home fs filename l = Err e
+        | Ok p =>
+          match fs_target T_files_p8.include_cart_lines_kind fs p ext with
+          | None => expand_now cwd home fs filename l = Err OtherError
+          | Some ls => expand_now cwd home fs filename l =
+                       Ok (map (yielded 1) (if is_cart_ext ext then lines_for_tab ls tab else ls))
+          end
+        end
       end
     end
   end.
@@ -57,10 +66,11 @@ Print Assumptions C20_tab.
 
 (* a missing target fails the load: at the first include line whose target is not a file; and any line
    whose expansion fails makes the whole load fail; without a file name the assert fires *)
-Theorem C20_missing : forall cwd home fs f pre l post chunks path ext tab,
+Theorem C20_missing : forall cwd home fs f pre l post chunks path ext tab nm,
   Forall2 (fun l c => expand_now cwd home fs (Some f) l = Ok c) pre chunks ->
   match_include_line l = Some (path, ext, tab) ->
-  fs_isfile fs (include_full_path cwd f (path ++ ext)) = false ->
+  decode_name_now path = Ok nm ->
+  fs_isfile fs (include_full_path cwd f (nm ++ ext)) = false ->
   process_includes_now cwd home fs (Some f) (pre ++ l :: post) = Err IncludeNotFound \/
   process_includes_now cwd home fs (Some f) (pre ++ l :: post) = Err IncludeOutside.
 Proof. exact missing_now. Qed.
@@ -92,16 +102,17 @@ Proof. exact recogniser_agrees. Qed.
 Print Assumptions C20_recogniser.
 
 (* C20_in_place, on code TEXT: for every cart (any number of lines, include lines at any positions),
-   every directory content and every file-system view describing the same files (fs_agrees: a named
-   text file is read as its bytes; a named cart's reader returns its code, in chunks of any shape), whenever the
+   every directory content and every file-system view describing the same files (fs_agrees: the name in the
+   line decodes - as P8SCII - to a file name; a named text file is read as its bytes; a named cart's reader
+   returns its code, in chunks of any shape), whenever the
    description defines the result the model produces exactly the reference lines - so no line of the
    cart is merged with an included line, with or without final newline in the included code - and
    fails when the description says a file is missing *)
-Theorem C20_in_place : forall cwd home fs filename content bodies,
-  fs_agrees cwd home fs filename content ->
+Theorem C20_in_place : forall cwd home fs f content bodies,
+  fs_agrees cwd home fs f content ->
   Forall no_nl bodies ->
   let hs := map (fun b => b ++ [10]) bodies in
-  let impl := model_outcome (process_includes_now cwd home fs filename hs) in
+  let impl := model_outcome (process_includes_now cwd home fs (Some f) hs) in
   text_lines (concat hs) = bodies /\
   match ref_splice content bodies with
   | SpOk ls => exists t, impl = Some t /\ text_lines t = ls
@@ -111,12 +122,27 @@ Theorem C20_in_place : forall cwd home fs filename content bodies,
 Proof. exact refines_now. Qed.
 Print Assumptions C20_in_place.
 
+(* the same for a cart whose last code line has no final newline (a .p8 file ending inside its code) *)
+Theorem C20_in_place_unterminated_last : forall cwd home fs f content init last,
+  fs_agrees cwd home fs f content ->
+  Forall no_nl init -> no_nl last -> last <> [] ->
+  let hs := map (fun b => b ++ [10]) init ++ [last] in
+  let impl := model_outcome (process_includes_now cwd home fs (Some f) hs) in
+  text_lines (concat hs) = init ++ [last] /\
+  match ref_splice content (init ++ [last]) with
+  | SpOk ls => exists t, impl = Some t /\ text_lines t = ls
+  | SpMissing => impl = None
+  | SpUndefined => True
+  end.
+Proof. exact refines_last_now. Qed.
+Print Assumptions C20_in_place_unterminated_last.
+
 (* ... hence the instance predicate the monitor evaluates on the implementation holds of the model *)
-Theorem C20_model_holds : forall cwd home fs filename files bodies,
-  fs_agrees cwd home fs filename (lookup_content files) ->
+Theorem C20_model_holds : forall cwd home fs f files bodies,
+  fs_agrees cwd home fs f (lookup_content files) ->
   Forall no_nl bodies ->
   let hs := map (fun b => b ++ [10]) bodies in
-  holds_C20 (concat hs) files (model_outcome (process_includes_now cwd home fs filename hs)) = true.
+  holds_C20 (concat hs) files (model_outcome (process_includes_now cwd home fs (Some f) hs)) = true.
 Proof. exact holds_now. Qed.
 Print Assumptions C20_model_holds.
 
@@ -146,6 +172,16 @@ Theorem C20_tab_variant_refuted :
   model_outcome (m_run T_files_p8.include_cart_lines_kind) = Some [93; 93; 10; 116; 61; 50; 10].
 Proof. exact tab_variant_refuted. Qed.
 Print Assumptions C20_tab_variant_refuted.
+
+(* decoding the captured name as UTF-8 (the code before the third fix) is false as well: `#include <0x86>.lua`,
+   the P8SCII spelling of a file named U+25CF.lua, raised UnicodeDecodeError; today's model includes the file *)
+Theorem C20_decode_variant_refuted :
+  u_run 0 = Err UnicodeError /\
+  holds_C20 (concat (map (fun b => b ++ [10]) u_host)) u_files (model_outcome (u_run 0)) = false /\
+  holds_C20 (concat (map (fun b => b ++ [10]) u_host)) u_files (model_outcome (u_run T_files_p8.include_name_decode_kind)) = true /\
+  model_outcome (u_run T_files_p8.include_name_decode_kind) = Some [118; 61; 49; 10].
+Proof. exact decode_variant_refuted. Qed.
+Print Assumptions C20_decode_variant_refuted.
 
 (* non-vacuity: a line the description reads as an include of tab 2 of a .p8.png cart in a sub-directory,
    a plain line, an undefined one; a three-tab code *)
